@@ -36,4 +36,11 @@ def mkTCon (c : List Char) (v : Option (List Char)) : Except TErr TCon :=
   | some (some k), some t => .ok (.mk k t)
   | some (some _), none => .error .ValueError
 
+/-- `range_class.version_class` (the name of the version class of a registered range class; every registered class
+has one: `registry_versionClass` in `Text/VersThm.lean`) -/
+def versionClassOfE (cls : String) : Except TErr String :=
+  match versionClassOf cls with
+  | some vc => .ok vc
+  | none => .error (.other "NoVersionClass")
+
 end Univers.Text.PyText
